@@ -301,6 +301,69 @@ def roundtrip(rep, repo, mod, cls, kw, varied):
            facts={"config": cfg, "lost": lost, "changed_attrs": changed})
 
 
+def roundtrip_after_change(rep, repo, mod, cls, kw):
+  """R6: the configuration describes the quantizer as it IS, not as it was
+  constructed: after the library's own ways of changing a live quantizer
+  (_set_trainable_parameter(), update_qnoise_factor(v), assignment to an
+  option attribute that get_config reports) the quantizer rebuilt from
+  get_config() computes the same function as the changed object."""
+  ci = mod.classes[cls]
+  unit = "%s::%s.get_config" % (mod.relpath, cls)
+  gc_owner, gc = ci.find_method("get_config")
+  fc_owner, fc = ci.find_method("from_config")
+  if gc is None or fc is None:
+    return 0
+  loc = gc_owner.module.loc(gc)
+  changes = []
+  if ci.find_method("_set_trainable_parameter")[1] is not None:
+    changes.append(("_set_trainable_parameter()", lambda pe, q: pe.call(
+        pe.getattr(q, "_set_trainable_parameter"), [], {})))
+  if ci.find_method("update_qnoise_factor")[1] is not None and \
+      "qnoise_factor" in [p_ for p_, _ in ci.init_params()[0]]:
+    changes.append(("update_qnoise_factor(1/4)", lambda pe, q: pe.call(
+        pe.getattr(q, "update_qnoise_factor"), [F(1, 4)], {})))
+    changes.append(("update_qnoise_factor(0)", lambda pe, q: pe.call(
+        pe.getattr(q, "update_qnoise_factor"), [F(0)], {})))
+  n = 0
+  for label, change in changes:
+    cfg = "%s(%s) after %s" % (cls, show_kw(kw), label)
+    pe = PE(repo)
+    cref = pe.lookup_global(cls, mod)
+    try:
+      q = pe.call(cref, [], dict(kw))
+      change(pe, q)
+      config = pe.call(pe.getattr(q, "get_config"), [], {})
+      q2 = pe.call(pe.getattr(cref, "from_config"), [dict(config)], {})
+    except PyRaise:
+      continue      # decided by R1 on the unchanged object
+    if not isinstance(q2, Obj):
+      continue
+    try:
+      pe.rand_counter = 0
+      o1 = pe.call(q, [pe.x_input()], {})
+      pe.rand_counter = 0
+      o2 = pe.call(q2, [pe.x_input()], {})
+    except PyRaise:
+      continue
+    n += 1
+    syms = {"post_training_scale": NF.sym("pts")}
+    bad = None
+    for ph in ("infer", "train"):
+      f1, f2 = Fwd(ph, syms)(o1.term), Fwd(ph, syms)(o2.term)
+      if not equal_mod_finite(f1, f2):
+        bad = bad or (ph, f1, f2)
+    changed = sorted(a for a in set(q.attrs) | set(q2.attrs)
+                     if a not in ("built", "scale", "quantization_scale") and
+                     not same_value(q.attrs.get(a), q2.attrs.get(a)))
+    rep.check(bad is None, "R6", unit, "config-describes-construction-time",
+              "%s: the quantizer rebuilt from get_config() differs from the "
+              "live object (attributes %s)%s" % (
+                  cfg, changed, "" if bad is None else "; %s forward %s vs "
+                  "%s" % (bad[0], show(bad[1], 140), show(bad[2], 140))),
+              loc=loc, instance=cfg)
+  return n
+
+
 def rule_registry(rep, repo, mod):
   reg = repo.module("qkeras.quantizer_registry")
   base = repo.module("qkeras.registry")
@@ -417,6 +480,12 @@ def run(rep, repo, tier):
               "option table of the checker" % missing, loc=ci.loc())
     roundtrip(rep, repo, mod, cls, dict(base), None)
     npoints += 1
+    nchanged = roundtrip_after_change(rep, repo, mod, cls, dict(base))
+    if "alpha" in params:
+      nchanged += roundtrip_after_change(rep, repo, mod, cls,
+                                         dict(base, alpha=None))
+    rep.extra["roundtrips_after_change"] = rep.extra.get(
+        "roundtrips_after_change", 0) + nchanged
     for p, vals in sorted(alts.items()):
       if p not in params:
         continue
@@ -442,3 +511,4 @@ def run(rep, repo, tier):
   rep.require_instances("R2", 90)
   rep.require_instances("R3", 90)
   rep.require_instances("R5", 20)
+  rep.require_instances("R6", 20)
